@@ -18,6 +18,7 @@ from sim.kernel import Sim, make_policy, StepCap, Deadlock
 from sim.executors import SimPoolBase, SimThreadPool, SimProcessPool
 from sim.runner import new_result, scratch_root
 from sim.seams import patched, NoGC, import_typhon, fresh_dir
+from sim.seams import deterministic_tempnames
 from sim.fsseam import SimLocalFS, HOOK as _FS_HOOK
 from sim import digest_of
 
@@ -458,6 +459,7 @@ _TOP_TASK = re.compile(r"^[a-z]+1\.w(\d+)$")
 # ------------------------------------------------------------------- the run
 def run_one(tape, only=None):
     _T["state"].restore()      # each run models a fresh interpreter
+    deterministic_tempnames()
     global ST
     res = new_result()
     w = gen_workload(tape)
